@@ -42,8 +42,10 @@ package crypto
 // valid encodings - and each encoding a fresh transaction hash)
 //@ func (*SECP256K1PublicKey).VerifyBytes
 //@   callsite VerifySignature requires[raw] arg2 == sig
+//@   ensures[cacheonlyvalid] cacheWrites() != old(cacheWrites()) ==> result
 //@ func (*ETHSECP256K1PublicKey).VerifyBytes
 //@   callsite VerifySignature requires[raw] arg2 == sig
+//@   ensures[cacheonlyvalid] cacheWrites() != old(cacheWrites()) ==> result
 
 // ---- C05: the batch verifier judges every queued tuple of the three individually verified schemes -----------------
 // tupleOK(t): the scheme's verification predicate on exactly the queued key, message and signature.
@@ -80,3 +82,13 @@ package crypto
 //@ func HKDFSecretsAndChallenge
 //@   callsite New@2 requires[sendkey] bytes(arg0) == (bytesCmp(bytes(ePub), bytes(ePeerPub)) < 0 ? bytes(buffer[32:64]) : bytes(buffer[0:32]))
 //@   callsite New@3 requires[receivekey] bytes(arg0) == (bytesCmp(bytes(ePub), bytes(ePeerPub)) < 0 ? bytes(buffer[0:32]) : bytes(buffer[32:64]))
+
+// ---- C05: the signature cache only ever learns VALID signatures --------------------------------------------------
+// A cache hit is taken as "verified" by every verifier and by the batch verifier without looking at the stored value.
+// So a call of VerifyBytes may put its (key, message, signature) triple into the cache only when it answers "valid":
+// if the cache was written during the call, the answer is true.
+// (the two secp256k1 verifiers carry the same clause next to their C06 clause above)
+//@ func (*BLS12381PublicKey).VerifyBytes
+//@   ensures[cacheonlyvalid] cacheWrites() != old(cacheWrites()) ==> result
+//@ func (*ED25519PublicKey).VerifyBytes
+//@   ensures[cacheonlyvalid] cacheWrites() != old(cacheWrites()) ==> result
